@@ -2,6 +2,7 @@ package flood
 
 import (
 	"fmt"
+	"strings"
 	"testing"
 
 	vp "github.com/postalsys/muti-metroo/internal/zzvp"
@@ -55,6 +56,11 @@ func vpRange(n int) []int {
 
 // vpCheckConverged is the C12 oracle; returns the largest hop distance seen.
 func vpCheckConverged(s *vpSim) (string, int) {
+	return vpCheckConvergedKeys(s, nil)
+}
+
+// vpCheckConvergedKeys judges only the route keys accepted by keep (nil = all).
+func vpCheckConvergedKeys(s *vpSim, keep func(key string) bool) (string, int) {
 	maxd := 0
 	for i := range s.nodes {
 		d := s.dist(i)
@@ -74,6 +80,9 @@ func vpCheckConverged(s *vpSim) (string, int) {
 				}
 			}
 			for k := range want {
+				if keep != nil && !keep(k) {
+					continue
+				}
 				r, ok := got[k]
 				if !ok {
 					return fmt.Sprintf("node %d never learned %s of origin %d (distance %d)", i, k, o, d[o]), maxd
@@ -159,4 +168,63 @@ func TestVPKnown_C12_collision(t *testing.T) {
 	if msg, _ := vpCheckConverged(s); msg != "" {
 		t.Fatalf("VPFAIL C12 %s\n  history: %s", msg, s.history())
 	}
+}
+
+// TestVP_C12_LateJoiner: a converged mesh (all links up before the first delivery, so no
+// replay carries learned routes and the listed replay-sequence findings cannot interfere),
+// then one more agent joins over 1-2 links. What it learns comes from its neighbours'
+// full-table replays only; after the drain it must hold every origin's exit routes (the
+// same prefix advertised by several origins is several routes) with valid paths, and
+// every agent must hold the joiner's. Presence routes are not judged here: they travel in
+// announcements only.
+func TestVP_C12_LateJoiner(t *testing.T) {
+	st := vp.NewStats("C12", "latejoiner", "vpsim: converged graph of 2-6 flooders with 1-4 exit routes drawn from small pools (so prefixes are shared between origins), then a further node joins over 1-2 generated links and learns from full-table replays alone; non-trivial = some prefix/pattern/key is advertised by two origins")
+	defer st.Flush()
+	rapid.Check(t, func(t *rapid.T) {
+		n := rapid.IntRange(2, 6).Draw(t, "n")
+		edges, shape := vpGenGraph(t, n)
+		s, _ := vpNewSim(n+1, 0)
+		defer s.stop()
+		routes := vpPlaceRoutes(t, s, 4, 0)
+		// the joiner (node n) keeps whatever vpPlaceRoutes gave it; the base graph excludes it
+		vpConverge(t, s, edges, false)
+		j := n
+		k := rapid.IntRange(1, 2).Draw(t, "joinLinks")
+		var joined [][2]int
+		for _, to := range rapid.Permutation(vpRange(n)).Draw(t, "joinTo")[:vpMinInt(k, n)] {
+			if rapid.Bool().Draw(t, "joinerDials") {
+				s.connect(j, to)
+			} else {
+				s.connect(to, j)
+			}
+			joined = append(joined, [2]int{to, j})
+			if rapid.Bool().Draw(t, "drainBetween") && !s.drainRandom(t, 20000) {
+				t.Fatalf("VPFAIL C12 no quiescence: %s", s.history())
+			}
+		}
+		if !s.drainRandom(t, 20000) {
+			t.Fatalf("VPFAIL C12 no quiescence after the join: %s", s.history())
+		}
+		shared := false
+		seen := map[string]int{}
+		for o := range s.nodes {
+			for key := range s.originated(o) {
+				if !strings.HasPrefix(key, "agent:") {
+					kk := key
+					if strings.HasPrefix(key, "forward:") {
+						kk = strings.SplitN(key, "=", 2)[0]
+					}
+					seen[kk]++
+					if seen[kk] > 1 {
+						shared = true
+					}
+				}
+			}
+		}
+		msg, _ := vpCheckConvergedKeys(s, func(key string) bool { return !strings.HasPrefix(key, "agent:") })
+		st.Case(fmt.Sprintf("%s %v join=%v routes=%s", shape, edges, joined, routes), shared, shape, fmt.Sprintf("join-links-%d", len(joined)), fmt.Sprintf("shared-prefix-%v", shared))
+		if msg != "" {
+			t.Fatalf("VPFAIL C12 after a late join over %v: %s\n  graph %s %v routes %s\n  history: %s", joined, msg, shape, edges, routes, s.history())
+		}
+	})
 }
